@@ -102,9 +102,10 @@ class Ctx:
         if os.environ.get("VERIF_TARGET_DIR"):
             env["CARGO_TARGET_DIR"] = os.environ["VERIF_TARGET_DIR"]
         t = time.time()
+        # every engine is its own cargo workspace (harness/engines/<engine>)
         p = subprocess.run(
-            ["cargo", "build", "--offline", "-q", "-p", "vh-" + engine],
-            cwd=HARNESS, env=env, stdout=subprocess.PIPE, stderr=subprocess.STDOUT, text=True)
+            ["cargo", "build", "--offline", "-q"],
+            cwd=os.path.join(HARNESS, "engines", engine), env=env, stdout=subprocess.PIPE, stderr=subprocess.STDOUT, text=True)
         if p.returncode != 0:
             sys.stderr.write(p.stdout[-6000:])
             raise ToolError("cargo build of vh-%s failed" % engine)
